@@ -8,7 +8,7 @@ use rayon::prelude::*;
 use serde_json::json;
 use vcore::{catch, rng_for, CaseOut, Ctx, Viol};
 
-use crate::util::{fhex, has_order_pow2, horner, omega_for, outer_workers, powers_of, seeded_vec, GPool, POOLS_ALL};
+use crate::util::{fhex, has_order_pow2, horner, omega_for, powers_of, seeded_vec, GPool, MIXED_POOL_WORKERS, POOLS_ALL};
 
 struct DomRef {
     j: u32,
@@ -97,10 +97,16 @@ pub fn run(cx: &mut Ctx) {
     }
 
     // ---------------- pool-dependent part: conversions, division, operators
-    for t in POOLS_ALL {
-        let cases: Vec<(String, usize)> = refs.iter().enumerate().map(|(i, r)| (format!("j={}:k={}:pool={t}", r.j, r.k), i)).collect();
+    {
+        let mut cases: Vec<(String, (usize, usize))> = vec![];
+        for (i, r) in refs.iter().enumerate() {
+            for t in POOLS_ALL {
+                cases.push((format!("j={}:k={}:pool={t}", r.j, r.k), (t, i)));
+            }
+        }
         let refs = &refs;
-        cx.run_cases_with(&format!("domain-pool{t}"), &cases, outer_workers(t), |i| {
+        cx.run_cases_with("domain-conversions", &cases, MIXED_POOL_WORKERS, |(t, i)| {
+            let t = *t;
             let r = &refs[*i];
             let (j, k) = (r.j, r.k);
             let n = 1usize << k;
